@@ -91,6 +91,8 @@ class Run:
                 if c["key"] in replays and not c.get("replay"):
                     c["replay"] = replays[c["key"]]       # the unbounded model of the same obligation was replayed on the real code
                 if c["key"] not in confirmed:
+                    if self._new_abstractions(r):
+                        continue        # a bounded counterexample found under a new over-approximation is no counterexample either (see below)
                     confirmed.add(c["key"])
                     self._refuted(r, c)
             for o in r["obligations"]:
@@ -106,11 +108,27 @@ class Run:
                 if o["status"] == "refuted":
                     if base in confirmed:
                         continue
+                    fresh = self._new_abstractions(r)
+                    if fresh and o.get("kind") != "cover":
+                        # the code of this unit now uses operations that the executor only over-approximates (an uninterpreted str method can
+                        # return ANY string) and did not use on the pinned tree: a model found under such an over-approximation is no
+                        # counterexample.  Undecided; the bounded stand-ins decide.
+                        self.undecided.append({"obligation": o["name"], "reason": "refuted only under an over-approximation the pinned tree's unit does not use (" + "; ".join(sorted(fresh))[:160] + "): not a counterexample"})
+                        continue
                     self._refuted(r, o)
                 elif o["status"] == "undecided":
                     if base in confirmed:
                         continue
                     self.undecided.append({"obligation": o["name"], "reason": o.get("reason", "")})
+
+    def _new_abstractions(self, unit_res):
+        now = {x for x in unit_res.get("info", {}).get("assumptions", []) if x.startswith("uninterpreted: ")}
+        if not now or not os.path.exists(BASELINE_PATH):
+            return set()
+        base = json.load(open(BASELINE_PATH)).get(self.pid, {}).get("abstractions")
+        if base is None or unit_res["unit"] not in base:
+            return set()
+        return now - set(base[unit_res["unit"]])
 
     def _refuted(self, unit_res, o):
         key = o["key"]
